@@ -50,6 +50,22 @@ def named_inputs(ctx):
                     if cname == "uq" and term in (" ", "<", "="):
                         continue
                     ext.append((tmpl % ("&" + nm + t + term), start, "x" if start == "rcdata" else None, False))
+    # several references in one input (the look-up structure is shared by the whole process: what one reference leaves behind
+    # must not change the next): a name-like string that matches nothing, or a shorter / longer / neighbouring name, then the name
+    by_initial = {}
+    for nm in names:
+        by_initial.setdefault(nm[0], []).append(nm)
+    seq = []
+    for i, nm in enumerate(names):
+        if ctx.quick and i % 3 != ctx.seed % 3:
+            continue
+        sib = by_initial[nm[0]]
+        other = sib[(sib.index(nm) * 7 + 3) % len(sib)]
+        firsts = ["&" + nm[0] + "~", "&" + nm[:2] + "~", "&" + nm.rstrip(";") + "q;", "&" + other, "&" + nm[0] + "zzz;", "&zz "]
+        for j, f in enumerate(firsts):
+            tmpl, start = CTX[(i + j) % 3][1:]
+            seq.append((tmpl % (f + "&" + nm + " " + f + "&" + other), start, "x" if start == "rcdata" else None, False))
+    ext += seq
     if ctx.quick:
         ext = [t for t in ext if ctx.rng.random() < 0.5]
         # all names in data and dq contexts with 5 followers, seeded third of the rest
@@ -89,6 +105,7 @@ def run(ctx):
     ctx.notes["entity_names"] = len(H5)
     # 1. named references
     tests = named_inputs(ctx)
+    ctx.rng.shuffle(tests)       # each worker tokenizes a seeded random sequence of inputs in one process
     ctx.constants = {"named_cases": len(tests), "followers": NEXT, "contexts": [c[0] for c in CTX]}
     rows = core.parallel(c02._tok_test, tests, chunk=5000)
     for x in rows:
